@@ -1,4 +1,5 @@
 import PegVerif.Proofs.Whitespace
+import PegVerif.Proofs.NonVacuity
 /-
   C08 – whitespace is skipped before every token of skipping rules and nowhere else.
 -/
@@ -51,5 +52,83 @@ theorem C08_custom_whitespace {env : Env} {u : Nat} {rec : Spec.SRec} {r : Rule}
     (h : env.g.find "Whitespace" = some (.rule r)) :
     Spec.stepRule env u rec "Whitespace" s = Spec.ruleBody env u rec r s :=
   WS.C08_custom_rule s h
+
+/-! ## non-vacuity (BEGIN) -/
+namespace C08_nv
+open Peg.NV
+
+/-! instance: `NV.env0` = `@export S = first:Num {'+' rest:Num} | word:Word; …` (skipping on) on `"1 + 23"`:
+    whitespace between the tokens -/
+
+/-- Bool form of `GoodG` -/
+theorem goodG_of {nf : Nat} {g : Grammar}
+    (h : g.rules.all (fun e => match e with
+      | .rule r => noIncl r.definition && compilable r.definition && decide (depthE r.definition < nf)
+      | _ => true) = true) : GoodG nf g := by
+  intro r hr
+  have := (List.all_eq_true.mp h) _ hr
+  simpa [GoodE, and_assoc] using this
+
+theorem hG : GoodG env0.nf env0.g := goodG_of (by decide)
+theorem spec_some : (Spec.parse env0 0 20 "S" inp1).isSome = true := by decide
+
+/-- `C08_desugar_grammar`: the skipping grammar and its desugared `@no_skip_ws` form answer alike … -/
+example : ∃ m, Spec.parse (desugarEnv env0) 0 m "S" inp1 = some ((Spec.parse env0 0 20 "S" inp1).get spec_some) :=
+  (C08_desugar_grammar env0 0 "S" inp1 _ rfl hG).mp ⟨20, (Option.some_get spec_some).symm⟩
+/-- … and here are the two runs: the same tree, 6 bytes, two blanks skipped; the desugared rules are `@no_skip_ws` and
+    call `Whitespace` explicitly -/
+example : (match Spec.parse env0 0 20 "S" inp1, Spec.parse (desugarEnv env0) 0 25 "S" inp1 with
+    | some (.ok v s), some (.ok v' s') =>
+        v.render == "S { first: Some(S\"31\"), rest: [S\"3233\"], word: None }" && v'.render == v.render && s.off == 6 && s'.off == 6
+    | _, _ => false) = true := by decide
+example : ((desugarEnv env0).g.findRule "S").map (fun r => (r.flags.noSkipWs, depthE r.definition == depthE (ruleS []).definition + 1)) =
+    some (true, true) := by decide
+/-- with skipping switched off the same input stops after `1` (the blank is not skipped: "nowhere else" needs the flag) -/
+example : (match Spec.parse { env0 with settings := { skipWhitespace := false } } 0 20 "S" inp1 with
+    | some (.ok _ s) => s.off == 1 | _ => false) = true := by decide
+
+/-- `C08_desugar_expr` at the definition of `S` -/
+def ctxS : Ctx := ⟨true, ownFields env0 (ruleS []).definition⟩
+theorem hgE : GoodE env0.nf (ruleS []).definition := ⟨by decide, by decide, by decide⟩
+theorem hu : UniqueNames ctxS.ruleFields := by unfold UniqueNames; decide
+theorem def_some : ((Spec.eval env0 0 20).expr { ctxS with skipWs := true } (ruleS []).definition (St.new inp1)).isSome = true := by
+  decide
+example : ∃ m, (Spec.eval env0 0 m).expr { ctxS with skipWs := false } (desugarE (ruleS []).definition) (St.new inp1) =
+    some (((Spec.eval env0 0 20).expr { ctxS with skipWs := true } (ruleS []).definition (St.new inp1)).get def_some) :=
+  (C08_desugar_expr env0 0 (ruleS []).definition ctxS (St.new inp1) _ hgE hu).mp ⟨20, (Option.some_get def_some).symm⟩
+
+/-- `C08_only_tokens` with two DIFFERENT contexts: the closure `{'+' rest:Num}` evaluated with the flag off over a
+    recursion that forces the flag on equals the evaluation with the flag on – the closure itself never reads it -/
+def R : Spec.SRec := Spec.eval env0 0 19
+def R' : Spec.SRec := ⟨fun c b s => R.expr { c with skipWs := true } b s, R.rule⟩
+def cl : Expr := .closure (.choice [.seq [lit '+', .field (some (.ident "rest")) false "Num"]]) false
+def mid : St := ⟨inp1.drop 1, 1, none⟩
+example : Spec.stepExpr env0 R' 19 ⟨false, ctxS.ruleFields⟩ cl mid = Spec.stepExpr env0 R 19 ctxS cl mid :=
+  C08_only_tokens (rec := R) (rec' := R') (ctx := ctxS) (ctx' := ⟨false, ctxS.ruleFields⟩) rfl rfl (fun _ _ => rfl) mid
+example : (match Spec.stepExpr env0 R 19 ctxS cl mid with | some (.ok _ s) => s.off == 6 | _ => false) = true := by decide
+/-- a token does read it: `'+'` at offset 1 (in front of `" + 23"`) matches with the flag and fails without -/
+example : (match Spec.stepExpr env0 R 19 ctxS (lit '+') mid, Spec.stepExpr env0 R 19 ⟨false, ctxS.ruleFields⟩ (lit '+') mid with
+    | some (.ok _ s), some (.err _) => s.off == 3 | _, _ => false) = true := by decide
+
+/-- `C08_builtin` on blank, TAB, LF, `+` -/
+example : parseWhitespace ⟨[32, 9, 10, 43], 1, none⟩ = .ok () ⟨[43], 4, none⟩ := by
+  rw [C08_builtin]; rfl
+example : Spec.withSkipWs R { ctxS with skipWs := false } mid (fun s => some (.ok s.off s)) = some (.ok 1 mid) :=
+  C08_no_flag_no_skip R ctxS mid _
+/-- `C08_include_inherits`: `>Num` inside a skipping context -/
+example : Spec.stepExpr env0 R 19 ctxS (.incl "Num") mid = R.expr ctxS (ruleNum []).definition mid :=
+  C08_include_inherits env0 R 19 ctxS "Num" (ruleNum []) mid rfl
+
+/-- `C08_custom_whitespace`: `@no_skip_ws Whitespace = {'_'};` replaces the builtin – `"1_+_23"` parses, `"1 + 23"`
+    stops after `1` -/
+def ruleW : Rule := ⟨[.noSkipWs], "Whitespace", .choice [.seq [.closure (.choice [.seq [lit '_']]) false]]⟩
+def envW : Env := { env0 with g := ⟨env0.g.rules ++ [.rule ruleW]⟩ }
+example (s : St) : Spec.stepRule envW 0 (Spec.eval envW 0 19) "Whitespace" s = Spec.ruleBody envW 0 (Spec.eval envW 0 19) ruleW s :=
+  C08_custom_whitespace s rfl
+example : (match Spec.parse envW 0 25 "S" [49, 95, 43, 95, 50, 51], Spec.parse envW 0 25 "S" inp1 with
+    | some (.ok _ s), some (.ok _ s') => s.off == 6 && s'.off == 1 | _, _ => false) = true := by decide
+
+end C08_nv
+/-! ## non-vacuity (END) -/
 
 end Peg.Props
